@@ -2,6 +2,8 @@
 their contract (odc/geo/cog/_s3.py, odc/geo/cog/_mpu_fs.py)."""
 from __future__ import annotations
 
+import builtins
+import io
 import itertools
 import os
 import shutil
@@ -177,8 +179,70 @@ def schedules(R: Run):
 LETTERS = "abcdefghijklmnopqrstuvwxyz"
 
 
-def sink_case(R: Run, root: Path, writes, plist, keep: bool, base_kind: str, tag: str):
-    """writes: list of (part, str) in write order; plist: part numbers handed to finalise"""
+class _ShortRaw(io.FileIO):
+    """Raw file whose write() accepts at most `limit` bytes per call and reports how many it
+    took - the documented behaviour of write(2) for huge (> 0x7ffff000 bytes) or interrupted
+    writes, scaled down.  Buffered writers loop until everything is written, so correct code
+    still produces the right file; a single unchecked raw write truncates."""
+
+    limit = 2
+
+    def write(self, b):
+        mv = memoryview(b).cast("B")
+        return super().write(mv[: self.limit])
+
+
+def _fault_open(limit: int):
+    def fopen(file, mode="r", buffering=-1, encoding=None, errors=None, newline=None, closefd=True, opener=None):
+        if "b" in mode and any(c in mode for c in "wax+"):
+            raw = _ShortRaw(os.fspath(file), mode.replace("b", ""))
+            raw.limit = limit
+            if buffering == 0:
+                return raw
+            size = io.DEFAULT_BUFFER_SIZE if buffering < 0 else max(1, buffering)
+            if "+" in mode:
+                return io.BufferedRandom(raw, size)
+            return io.BufferedWriter(raw, size)
+        return builtins.open(file, mode, buffering, encoding, errors, newline, closefd, opener)
+
+    return fopen
+
+
+class _short_writes:
+    """context: every file `odc.geo.cog._mpu_fs` opens for writing (through `open` or
+    `Path.open`) sits on a `_ShortRaw`; nothing in odc-geo is edited"""
+
+    def __init__(self, limit: Optional[int]):
+        self.limit = limit
+
+    def __enter__(self):
+        if self.limit is None:
+            return self
+        from odc.geo.cog import _mpu_fs
+
+        fopen = _fault_open(self.limit)
+
+        class FaultPath(type(Path())):  # pylint: disable=too-few-public-methods
+            def open(self, mode="r", buffering=-1, encoding=None, errors=None, newline=None):
+                return fopen(self, mode, buffering, encoding, errors, newline)
+
+        self._mod = _mpu_fs
+        self._old_path = _mpu_fs.Path
+        _mpu_fs.open = fopen
+        _mpu_fs.Path = FaultPath
+        return self
+
+    def __exit__(self, *exc):
+        if self.limit is not None:
+            del self._mod.open
+            self._mod.Path = self._old_path
+        return False
+
+
+def sink_case(R: Run, root: Path, writes, plist, keep: bool, base_kind: str, tag: str,
+              short: Optional[int] = None):
+    """writes: list of (part, str) in write order; plist: part numbers handed to finalise;
+    short: None, or the number of bytes a raw write accepts per call (short-write fault model)"""
     from odc.geo.cog._mpu_fs import MPUFileSink
 
     work = Path(tempfile.mkdtemp(dir=root))
@@ -192,6 +256,10 @@ def sink_case(R: Run, root: Path, writes, plist, keep: bool, base_kind: str, tag
     state: Dict[str, Any] = {}
 
     def real():
+        with _short_writes(short):
+            return real_()
+
+    def real_():
         sink = MPUFileSink(dst, parts_base=base)
         recs: Dict[int, Dict[str, Any]] = {}
         pdir = None
@@ -226,11 +294,11 @@ def sink_case(R: Run, root: Path, writes, plist, keep: bool, base_kind: str, tag
         return (f"{err} ; dst{'N' if content is None else '=' + content} ; "
                 f"parts={list_s([f'{p}:{d}' for p, d in left])} ; dir={'T' if pdir.exists() else 'F'}")
 
-    R.corr(line, real, sig=f"sink|{tag}|keep={keep}|{base_kind}")
+    R.corr(line, real, sig=f"sink|{tag}|keep={keep}|{base_kind}|{'short-writes' if short else 'plain'}")
     # ---- property oracle (no model): listed parts distinct and all written
     last = dict(writes)
     if state and plist and len(set(plist)) == len(plist) and all(p in last for p in plist):
-        case = {"writes": writes, "parts": plist, "keep": keep, "base": base_kind}
+        case = {"writes": writes, "parts": plist, "keep": keep, "base": base_kind, "short_write": short}
         want = "".join(last[p] for p in plist)
         complete = set(plist) == set(last)
         okerr = state["err"] == "ok" or (state["err"] == "ERR:OSError" and not keep and not complete)
@@ -264,7 +332,7 @@ def sink_cases(R: Run, root: Path):
                 for keep in (False, True):
                     k += 1
                     sink_case(R, root, writes, list(order), keep, ("none", "dir", "nested")[k % 3],
-                              "all-parts" + ("|empty-part" if 0 in sv else ""))
+                              "all-parts" + ("|empty-part" if 0 in sv else ""), short=(None, 1, 2, None, 5)[k % 5])
     # random: 1..6 parts, arbitrary part numbers, overwrites, permutations, subsets, duplicates, unknown parts
     for _ in range(R.pick(300, 3000)):
         n = rng.randint(1, 6)
@@ -283,10 +351,13 @@ def sink_cases(R: Run, root: Path):
             plist.insert(rng.randint(0, len(plist)), 8)
         elif kind == "empty":
             plist = []
-        sink_case(R, root, writes, plist, rng.random() < 0.4, rng.choice(["none", "dir", "nested"]), kind)
+        sink_case(R, root, writes, plist, rng.random() < 0.4, rng.choice(["none", "dir", "nested"]), kind,
+                  short=rng.choice([None, None, 1, 3, 16, 4096]))
     # big parts (several pages) next to an empty one
     big = data(3) * 3000
     sink_case(R, root, [(1, big), (2, ""), (3, big[:5000])], [1, 2, 3], False, "none", "big|empty-part")
+    sink_case(R, root, [(1, big[:10]), (2, big), (3, ""), (4, big[:5000])], [1, 2, 3, 4], False, "dir",
+              "big|empty-part", short=1000)
     # the replay of F17
     sink_case(R, root, [(1, "abc"), (2, ""), (3, "zz")], [1, 2, 3], False, "none", "all-parts|empty-part")
 
@@ -381,6 +452,8 @@ def run(R: Run):
     finally:
         shutil.rmtree(root, ignore_errors=True)
     R.exhaustive = False
+    R.assumptions.append("short-write fault model for the file sink: raw writes may accept fewer bytes than offered "
+                         "(write(2) semantics), buffered writers loop")
     R.assumptions.append("fake S3 client / distributed.get_client, Variable, Lock at the client boundary; "
                          "steps of different threads execute sequentially consistently")
     R.searchers.append(search)
@@ -433,7 +506,7 @@ def replay(R: Run, rec) -> int:
         try:
             probe = Run(R.prop, R.tier, R.seed)
             sink_case(probe, root, [tuple(w) for w in case["writes"]], case["parts"], case["keep"], case["base"],
-                      "replay")
+                      "replay", short=case.get("short_write"))
             print("real :", probe.real[0])
             for f in probe.oracle_failures:
                 print("FAILS:", f["key"], "-", f["what"])
